@@ -340,11 +340,8 @@ func (s *ImmuServer) ChangePassword(ctx context.Context, r *schema.ChangePasswor
 
 	s.Logger.Infof("password for user %s was changed by user %s", targetUser.Username, user.Username)
 
-	// remove user from logged in users
-	s.removeUserFromLoginList(targetUser.Username)
-
-	// invalidate the token for this user
-	auth.DropTokenKeys(targetUser.Username)
+	// remove user from logged in users and invalidate its tokens
+	s.logoutUser(targetUser.Username)
 
 	// terminate active sessions for this user
 	s.SessManager.CloseSessionsForUser(targetUser.Username)
@@ -440,7 +437,7 @@ func (s *ImmuServer) ChangePermission(ctx context.Context, r *schema.ChangePermi
 	s.Logger.Infof("permissions of user %s for database %s was changed by user %s", targetUser.Username, r.Database, user.Username)
 
 	// remove user from loggedin users
-	s.removeUserFromLoginList(targetUser.Username)
+	s.logoutUser(targetUser.Username)
 
 	// terminate active sessions for this user
 	s.SessManager.CloseSessionsForUser(targetUser.Username)
@@ -503,7 +500,7 @@ func (s *ImmuServer) SetActiveUser(ctx context.Context, r *schema.SetActiveUserR
 	}[r.Active], user.Username)
 
 	//remove user from loggedin users
-	s.removeUserFromLoginList(targetUser.Username)
+	s.logoutUser(targetUser.Username)
 
 	// terminate active sessions for this user
 	s.SessManager.CloseSessionsForUser(targetUser.Username)
@@ -613,6 +610,14 @@ func (s *ImmuServer) saveUser(ctx context.Context, user *auth.User) error {
 // entry when no sessions remain. Returns true when the last session was removed.
 func (s *ImmuServer) removeUserFromLoginList(username string) bool {
 	return s.userdata.RemoveSession(username)
+}
+
+// logoutUser forgets every login of username and invalidates its tokens. Used when
+// the password, the permissions or the active state of the user change: requests
+// must not be served any longer with the userdata cached at login time.
+func (s *ImmuServer) logoutUser(username string) {
+	s.userdata.RemoveAllSessions(username)
+	auth.DropTokenKeys(username)
 }
 
 func (s *ImmuServer) addUserToLoginList(u *auth.User) {
@@ -737,7 +742,7 @@ func (s *ImmuServer) ChangeSQLPrivileges(ctx context.Context, r *schema.ChangeSQ
 	s.Logger.Infof("permissions of user %s for database %s was changed by user %s", targetUser.Username, r.Database, user.Username)
 
 	// remove user from loggedin users
-	s.removeUserFromLoginList(targetUser.Username)
+	s.logoutUser(targetUser.Username)
 
 	// terminate active sessions for this user
 	s.SessManager.CloseSessionsForUser(targetUser.Username)
